@@ -102,6 +102,9 @@ pub enum End {
     RejectedThenFinalize { late: Vec<Op> },
     /// finalize_customized_xml with a transformer applying these literal replacements (all occurrences, in order)
     FinalizeReplace(Vec<(String, String)>),
+    /// finalize, then calls a finished writer must refuse: finalize again, these operations, finalize once more.
+    /// Whatever they return is ignored here; the checks look at what is on the device.
+    FinalizeThenMore { more: Vec<Op> },
 }
 
 /// Remove the line breaks outside CDATA sections.
@@ -638,6 +641,24 @@ fn exec_end(w: &mut E57Writer<MemDev>, p: &Program, tr: &mut Trace, marker: &Mem
                     return;
                 }
             }
+        }
+        End::FinalizeThenMore { more } => {
+            marker.mark("finalize");
+            tr.finalize_entered = true;
+            tr.current = "finalize".into();
+            tr.calls += 1;
+            if let Err(e) = w.finalize() {
+                tr.error = Some(("finalize".to_string(), e.to_string()));
+                return;
+            }
+            tr.after_ok("finalize");
+            tr.finalized = true;
+            tr.current = "calls after finalize".into();
+            let _ = w.finalize();
+            let late = Program { guid: String::new(), ops: more.clone(), end: End::Drop };
+            let mut scratch = Trace::default();
+            exec_ops(w, &late, &mut scratch);
+            let _ = w.finalize();
         }
         End::FinalizeReplace(pairs) => {
             marker.mark("finalize");
